@@ -249,7 +249,8 @@ def check_smooth(L, m, P, c, wit, rng, si):
                     i, j = [int(x) for x in np.argwhere(bad)[0]]
                     det = dict(wit, state=si, integrator=name, row=i, col=j, analytic=float(Dan[i, j]), fd=float(F2[i, j]),
                                fd_coarse=float(F1[i, j]), tol=float(tol[i, j]), terms=terms, nbad=int(bad.sum()))
-                    P.violation("qDeriv-differs-from-FD:%s:%s" % (diagnose(L, m, d, T, qvel, bias, i, j, F2, Dan, tol), name), det)
+                    for mech in diagnose(L, m, d, T, qvel, bias, i, j, F2, Dan, tol).split("|"):
+                        P.violation("qDeriv-differs-from-FD:%s:%s" % (mech, name), det)
                 P.count("smooth_checks_" + name)
                 if bias:
                     Dan_full = Dan
@@ -369,7 +370,25 @@ def diagnose(L, m, d, T, qvel, bias, i, j, F2, Dan, tol):
                             out = "actuator-term:joint-actuatorfrcrange-clamp-ignored"
             else:
                 m.opt["disableflags"] = dis0 | E.mjDSBL_DAMPER
-                out = "damper-term" if _entry_ok(L, m, T, qvel, bias, i, j, tol) else "bias-or-other-term"
+                if _entry_ok(L, m, T, qvel, bias, i, j, tol):
+                    out = "damper-term"
+                else:
+                    out = "bias-or-other-term"
+                    # two families at once? (each is then named on its own)
+                    m.opt["disableflags"] = dis0 | E.mjDSBL_ACTUATION
+                    m.opt["density"], m.opt["viscosity"] = 0.0, 0.0
+                    if (rho > 0 or mu > 0) and _entry_ok(L, m, T, qvel, bias, i, j, tol):
+                        m.opt["density"], m.opt["viscosity"] = rho, mu
+                        fl = "fluid-term" + (":ellipsoid-drag-area-derivative-clamped-by-mjMINVAL-guard" if drag_guard_active(L, m, d) else "")
+                        ac = "actuator-term"
+                        for k in ((i,) if bias else (i, j)):
+                            jn = int(m["dof_jntid"][k])
+                            if m["jnt_actfrclimited"][jn]:
+                                r = m["jnt_actfrcrange"][jn]
+                                q = float(d["qfrc_actuator"][k])
+                                if q <= r[0] or q >= r[1]:
+                                    ac = "actuator-term:joint-actuatorfrcrange-clamp-ignored"
+                        out = fl + "|" + ac
     except drv.MjError:
         pass
     finally:
@@ -759,7 +778,7 @@ def worker(c):
 def cases(ctx):
     rng = ctx.rng
     cs = []
-    n = ctx.pick(220, 2400)
+    n = ctx.pick(220, 1400)
     for i in range(n):
         prof = "smooth" if i % 4 != 3 else "rich"
         kinds = ["smooth", "transition", "smooth", "inverse"] if prof == "smooth" else ["transition", "inverse"]
@@ -799,7 +818,7 @@ def run(ctx):
                  "term_muscle", "freeMhat_blocks", "fwd_vs_centred_checked", "inverse_checks", "transition_with_constraints"):
         if not ctx.counters.get(need):
             ctx.inconclusive("workload never exercised: " + need)
-    ctx.min_nontrivial = 1 if fast else ctx.pick(500, 6000)
+    ctx.min_nontrivial = 1 if fast else ctx.pick(500, 4000)
 
 
 def replay(ctx, path):
